@@ -302,9 +302,9 @@ def run(ctx):
             raise tlc.MachineryFailure(f"fresh parse of kind {k} failed: {o}")
         fresh[k] = o[0]
     hists = [rec["hist"] for rec in rh.records if rec["hist"]]
-    # (TLC checks every history; of those of length 3 every fourth is also executed: each one costs a fresh process
+    # (TLC checks every history; of those of length 3 every eighth is also executed: each one costs a fresh process
     # and three passes over its documents)
-    hists = [h for n, h in enumerate(hists) if len(h) < 3 or n % 4 == 0]
+    hists = [h for n, h in enumerate(hists) if len(h) < 3 or n % 8 == 0]
     exp = {tuple(rec["hist"]): rec["outs"] for rec in rh.records}
     outs = pmap(_hist_job, [(str(hd), h) for h in hists], procs=16, chunksize=4)
     traces = []
@@ -340,7 +340,7 @@ def run(ctx):
                 break
     ctx.leg("R-history", histories=len(hists))
     # ---- V: random longer histories -----------------------------------------------------------
-    vh = [[rnd.choice(KINDS) for _ in range(rnd.randint(4, 9))] for _ in range(40 if quick else 600)]
+    vh = [[rnd.choice(KINDS) for _ in range(rnd.randint(4, 9))] for _ in range(40 if quick else 300)]
     vouts = pmap(_hist_job, [(str(hd), h) for h in vh], procs=16, chunksize=2)
     traces = []
     for t, (h, o) in enumerate(zip(vh, vouts)):
